@@ -158,14 +158,15 @@ def entry_point_histories(res, tier):
         if ncomp < 2:
             continue
         via = "string" if idx % 4 == 0 else "script"
-        r = k10.run_scripts(events, results, f"c08h{idx}", via=via)
+        timers = idx % 3 == 1          # a third of the chains with the compile timers enabled
+        r = k10.run_scripts(events, results, f"c08h{idx}", via=via, timers=timers)
         if r is None:
             stats["not_renderable"] += 1
             continue
         hist, files = r
         stats["chains"] += 1
         for j in range(1, ncomp):
-            alone, _ = k10.run_scripts(events, results, f"c08f{idx}_{j}", via=via, only={j})
+            alone, _ = k10.run_scripts(events, results, f"c08f{idx}_{j}", via=via, only={j}, timers=timers)
             a, b = hist[j], alone[j]
             stats["programs_compared"] += 1
             text = None
@@ -178,7 +179,7 @@ def entry_point_histories(res, tier):
             elif a.get("err") != b.get("err"):
                 text = f"after the history: {a.get('msg')}; alone: {b.get('msg')}"
             if text:
-                res.violation({"property": "C08", "kind": "entry-point-history", "events": events, "program_index": j, "via": via,
+                res.violation({"property": "C08", "kind": "entry-point-history", "events": events, "program_index": j, "via": via, "timers": timers,
                                "files": files, "text": text},
                               f"chain {idx}, program {j} of {ncomp} through compile_{via}: {text}"[:400])
         if len(res.violations) > 10:
@@ -266,8 +267,8 @@ def replay(obj):
         reset_globals()
         m = interp.run_events(copy.deepcopy(obj["events"]))
         j = obj["program_index"]
-        hist, _ = k10.run_scripts(m.events, m.results, "c08rh", via=obj["via"])
-        alone, _ = k10.run_scripts(m.events, m.results, "c08rf", via=obj["via"], only={j})
+        hist, _ = k10.run_scripts(m.events, m.results, "c08rh", via=obj["via"], timers=obj.get("timers", False))
+        alone, _ = k10.run_scripts(m.events, m.results, "c08rf", via=obj["via"], only={j}, timers=obj.get("timers", False))
         a, b = hist[j], alone[j]
         bad = ("mir" in a) != ("mir" in b) or ("mir" in a and cm.first_diff(normalize(a["mir"]), normalize(b["mir"]))) \
             or ("mir" not in a and a.get("err") != b.get("err"))
